@@ -55,7 +55,7 @@ def gen_plan(ctx, only=None):
 
     def work(b):
         r = ctx.tlc("Plan_KeysetWire", env={"VERIF_OUT": outs[b], "VERIF_BLK": b, "VERIF_THOROUGH": "1" if ctx.thorough else "0",
-                                            "VERIF_MIX": 12000 if ctx.thorough else 1200},
+                                            "VERIF_MIX": 40000 if ctx.thorough else 1200},
                     workers=1, heap="6g", timeout=1500, extra=["-seed", str(ctx.seed)])
         if not r.ok:
             raise vlib.Infra("Plan_KeysetWire block %s: %s" % (b, r.error or r.summary()))
@@ -107,16 +107,21 @@ def brief(m):
     return "%s: %s" % (m["bad"], json.dumps(e)[:1600])
 
 
+MAX_FINDINGS = 8     # per shard: a shard that reports that many stops there (the rest of it is not judged)
+
+
 def judge(ctx, trace, stage, stats=True):
     env = {"VERIF_STATS": "1"} if stats else {}
     n0 = sum(1 for x in open(trace) if x.strip())
-    mism, n = ctx.validate_events("Trace_KeysetWire", trace, env=env, stage=stage, shards=max(2, min(16, n0 // 700)), max_findings=8)
+    mism, n = ctx.validate_events("Trace_KeysetWire", trace, env=env, stage=stage, shards=max(2, min(16, n0 // 700)), max_findings=MAX_FINDINGS)
     inst = [m for m in mism if m["bad"][0].startswith("INSTANTIATION") or m["bad"][0].startswith("unknown event")]
     expect = [m for m in mism if m["bad"][0].startswith("EXPECTATION")]
     real = [m for m in mism if m not in inst and m not in expect]
     if os.environ.get("X06_DEBUG"):
         for m in mism:
             ctx.log("MISMATCH", brief(m))
+    if len(mism) >= MAX_FINDINGS and not [m for m in real if signature(m) != KNOWN_EMPTY_EXPONENT]:
+        raise vlib.Infra("%d mismatches without a verdict: a shard may have stopped early, the validation is incomplete; e.g. %s" % (len(mism), brief(mism[0])))
     if inst:
         raise vlib.Infra("driver/plan inconsistency (%d events), e.g. %s" % (len(inst), brief(inst[0])))
     if expect and not [m for m in real if signature(m) != KNOWN_EMPTY_EXPONENT]:
@@ -199,7 +204,7 @@ def run(ctx):
                        "through a handle (cleartext, without secrets, encrypted with and without associated data under an invertible toy AEAD). read cases = "
                        "per read keyset every spelling: canonical, defaults written, varints padded by 1/3/9 groups, every field order per level, 10 unknown "
                        "fields (all wire types, groups, number 2^29-1) first / last per level, scalars twice, key_data split at every point, wide varints, "
-                       "wrong wire types, (in)valid UTF-8, every cut point, 20 malformed pieces in 4 places; every octet string of length 0..3 [0..4] over 12 "
+                       "wrong wire types, (in)valid UTF-8, every cut point, 20 malformed pieces in 4 places; every octet string of length 0..3 [0..5] over 12 "
                        "meaningful octets; JSON: 6 text shapes, defaults left out, all 128 combinations of the parser alternatives, every member order per level, "
                        "37 key id values, 23 enum values, 34 base64 values, wrong kinds, unknown / duplicate members per level; the same for EncryptedKeyset; "
                        "handle-level reads of sealed spellings with every KeysetInfo")
@@ -245,6 +250,8 @@ def run(ctx):
     ctx.cov["events"] = n
     classes, used = read_stats(ctx)
     ctx.stage("T:classes", **{"%s/%s/%s" % k: v for k, v in sorted(classes.items())})
+    if sum(classes.values()) != n and not [m for m in real if signature(m) != KNOWN_EMPTY_EXPONENT]:
+        raise vlib.Infra("only %d of %d events were judged (a shard stopped early)" % (sum(classes.values()), n))
     ctx.cov["observed"] = dict(sorted(used.items()))
     if not only:
         for need in [("read", "bin", "accept"), ("read", "bin", "accept*"), ("read", "bin", "reject"), ("read", "bin", "reject*"),
